@@ -82,6 +82,41 @@ class C02(Prop):
                                 pipe = ["map", "add1", pipe]
                             out.append(Case("time", fl, [("pipe", [pipe])], evs,
                                             {"kind": "time-overtake", "cut": cut}))
+        # a two-input operator inside a time chain, its second input being its own source (another hot subject, an
+        # interval): unsubscribing must also end that second subscription / cancel its task, and a terminal of the
+        # second input must be handled where the chain model handles it (`TW.deliverNotifiers`, `unsubFrom` of an
+        # `op2n` stage; found unexercised by tools/model_mutants.py: no generator put a hot subject there and none
+        # unsubscribed with an interval there)
+        rng2 = random.Random(seed + 202)      # own stream: the populations above and below stay what they were
+        for i in range(n // 8):
+            k = rng2.choice(pg.TWO)
+            main = tg.chain(rng2, ["hot", "0"], list(tg.TIME_OPS), rng2.randint(0, 2), p_sync=0.4)
+            nsrc = rng2.choice([["hot", "1"], ["hot", "1"], ["interval", str(rng2.choice([1, 3]))]])
+            pipe = [k, main, nsrc]
+            if rng2.random() < 0.5:
+                pipe = tg.chain(rng2, pipe, list(tg.TIME_OPS), 1, p_sync=0.5)
+            evs = [["sub"], ["run"]]
+            nxt = 1
+            for _ in range(rng2.randint(2, 9)):
+                r = rng2.random()
+                if r < 0.3:
+                    evs.append(["emit", "0", ["n", str(nxt)]]); nxt += 1
+                elif r < 0.55 and nsrc[0] == "hot":
+                    evs.append(["emit", "1", ["n", str(50 + nxt)]]); nxt += 1
+                elif r < 0.62 and nsrc[0] == "hot":
+                    evs.append(["emit", "1", rng2.choice(["c", ["e", "4"]])])
+                elif r < 0.67:
+                    evs.append(["emit", "0", rng2.choice(["c", ["e", "3"]])])
+                else:
+                    evs.append(["adv", str(rng2.choice([1, 1, 3]))])
+                evs.append(["run"])
+            cut = rng2.randint(2, len(evs))
+            tail = [["adv", "1"], ["run"], ["emit", "0", ["n", "99"]], ["run"]] + \
+                   ([["emit", "1", ["n", "98"]], ["run"]] if nsrc[0] == "hot" else []) + [["adv", "20"], ["run"]]
+            evs = evs[:cut] + [["unsub"]] + evs[cut:] + tail
+            fl = rng2.choice(["local", "threads"])
+            fields = ([("locktrace", ["1"])] if fl == "threads" else []) + [("pipe", [pipe])]
+            out.append(Case("time", fl, fields, evs, {"kind": "time-two-input", "cut": cut}))
         # two real threads at lock granularity (suite `coop`): the emitter / the executor against unsubscribe()
         out += cg.cases(tier, seed)
         # merge_all / group_by / share (theorems C02M_* over their own models): the histories of the C05 / C20 /
